@@ -51,6 +51,8 @@ func opSite(o op) string {
 		return "G.call_f1{close inside H.f1}"
 	case kStore:
 		return fmt.Sprintf("store:%d", o.X)
+	case kRefMake:
+		return "refmake:" + [...]string{"R.mk", "R.burst", "R.init", "R.getref->T.put2", "R.mkg", "T.clr0"}[o.X]
 	case kFailInst:
 		return fmt.Sprintf("failing-instantiation:%s:%d", failKindNames[o.X], o.A)
 	}
@@ -92,9 +94,9 @@ const knownSig2 = "stacktrace:frame-of-closed-compiled-module-missing"
 
 // frameModule maps the first frame of a trap probe's stack trace (the function finally reached) to its module.
 func frameModule(line string) int {
-	for i, p := range []string{".g(", ".k(", ".c(", ".d("} {
+	for i, p := range []string{".g(", ".k(", ".c(", ".d(", ".r("} {
 		if strings.HasPrefix(line, p) {
-			return i
+			return [...]int{mA, mB, mC, mD, mR}[i]
 		}
 	}
 	return -1
@@ -117,7 +119,7 @@ func explainedByClosedCode(test, twin string, s state, y int) bool {
 		if m < 0 || m == y || (y == mB && m == mA) {
 			return false
 		}
-		if !(s.CacheClosed || (m < 3 && s.Comp[m])) {
+		if !(s.CacheClosed || (m != mD && s.Comp[m])) {
 			return false
 		}
 		d := append(append([]string{}, tl[:i+1]...), tl[i+2:]...)
@@ -134,7 +136,7 @@ type twinHost struct {
 
 func (t *twinHost) get(eng int) *world {
 	if t.w[eng] == nil {
-		t.w[eng] = newWorld(false, eng, false, [nMods]bool{true, true, true, true, true, true, true}, 0, false)
+		t.w[eng] = newWorld(false, eng, false, [nMods]bool{true, true, true, true, true, true, true, true, true}, 0, false)
 	}
 	return t.w[eng]
 }
@@ -150,7 +152,7 @@ func (t *twinHost) release(eng int, tainted bool) {
 		t.w[eng] = nil
 		return
 	}
-	for _, x := range []int{mG, mH, mN, mM, mC, mB, mA} {
+	for _, x := range []int{mR, mT, mG, mH, mN, mM, mC, mB, mA} {
 		if w.inst[x] != nil {
 			w.inst[x].Close(bgctx)
 			w.inst[x] = nil
@@ -186,7 +188,7 @@ func runTwin(tw *world, h history, ps state) (tt twinTrace) {
 			if tw.inst[o.X] == nil {
 				r = tw.do(o)
 			}
-		case kStore, kReenter, kFailInst, kGrowGuest, kGrowHost, kMemWrite, kHostReenter:
+		case kStore, kReenter, kFailInst, kGrowGuest, kGrowHost, kMemWrite, kHostReenter, kRefMake:
 			r = tw.do(o)
 		}
 		tt.ops = append(tt.ops, r)
@@ -273,7 +275,7 @@ func execHistory(h history, eng int, mark func(step int, site, phase string)) (r
 				return fail(k, site, "op", kind, test, t)
 			}
 			operr = cl == "ordinary-error"
-		case kStore:
+		case kStore, kRefMake:
 			t := tt.ops[k]
 			if t != "ok" {
 				fw.Fatalf("twin: %s: %s", o, t)
@@ -317,7 +319,7 @@ func execHistory(h history, eng int, mark func(step int, site, phase string)) (r
 				return res
 			}
 			res.Status = "operr"
-			if o.K == kStore || o.K == kFailInst || o.K == kGrowGuest || o.K == kGrowHost || o.K == kMemWrite {
+			if o.K == kStore || o.K == kRefMake || o.K == kFailInst || o.K == kGrowGuest || o.K == kGrowHost || o.K == kMemWrite {
 				return res // the slot may or may not have been written: no probes
 			}
 		} else {
